@@ -41,7 +41,14 @@ func (e *Explorer) uf(name string, in ...[]value) []value {
 		}
 		conc[i] = c
 	}
-	if all {
+	pinnedSym := false
+	if all && e.Pin != nil {
+		// interpreter replay: the symbolic run created variables here iff the next name is pinned
+		probe := fmt.Sprintf("|%s.out[%d]#%d|", name, 0, e.seq+1)
+		_, pinnedSym = e.Pin.Values[probe]
+	}
+	out := make([]value, 32)
+	if all && !pinnedSym {
 		var d [32]byte
 		switch name {
 		case "sha256":
@@ -51,15 +58,13 @@ func (e *Explorer) uf(name string, in ...[]value) []value {
 			m.Write(conc[1])
 			copy(d[:], m.Sum(nil))
 		}
-		out := make([]value, 32)
 		for i := range out {
 			out[i] = d[i]
 		}
-		return out
-	}
-	out := make([]value, 32)
-	for i := range out {
-		out[i] = symv{t: e.fresh(fmt.Sprintf("%s.out[%d]", name, i), BV(8)), k: types.Uint8}
+	} else {
+		for i := range out {
+			out[i] = mkScalar(e.pinOr(e.fresh(fmt.Sprintf("%s.out[%d]", name, i), BV(8))), types.Uint8)
+		}
 	}
 	for _, prev := range e.ufApps {
 		if prev.name != name {
